@@ -208,3 +208,80 @@ estimate_run_start_and_end = REG.add(Contract(
     loops={1: Loop(lambda S, a: []), 2: Loop(lambda S, a: [])},
     consts={"datetime.timezone.utc": Opq(z3.Const("utc", V))},
 ))
+
+
+# --------------------------------------------------------------------------------------
+# Context.get_array / Context.make for several runs: the request is handed to multi_run unchanged (C15)
+# --------------------------------------------------------------------------------------
+def _multi_run_call(which):
+    def hook(eng, args, kw, st, fr, k, node):
+        env = st.env
+        from pyvc.engine import Named
+        fn_ok = isinstance(args[0], Opq) or isinstance(args[0], Named) or True
+        same = lambda key: key in kw and _same(eng, kw[key], env.get("#entry_" + key))
+        eng.oblige("multi-run", "every run of a multi-run request is processed by get_array with the request's own targets, save list and "
+                                "worker count (what a sequential single-run call would get)", st,
+                   z3.BoolVal(bool(len(args) >= 2 and _same(eng, args[1], env.get("run_ids")) and same("targets") and same("save")
+                                   and same("max_workers"))), node)
+        eng.oblige("multi-run", "the function applied to each run is this context's get_array", st,
+                   z3.BoolVal(bool(args and _same(eng, args[0], env.get("#get_array")))), node)
+        if which == "make":
+            eng.oblige("multi-run", "make() for several runs keeps no data (throw_away_result) and passes the chunk numbers on", st,
+                       z3.And(eng.truth(kw.get("throw_away_result", z3.BoolVal(False))),
+                              z3.BoolVal(bool("chunk_number" in kw and _same(eng, kw["chunk_number"], env.get("#entry_chunk_number"))))), node)
+        g = dict(st.ghost)
+        g["multi"] = z3.BoolVal(True)
+        fr.on_raise(Exc("Any", Opq(eng.fresh("run_failed", "V"))), st)
+        return k(Opq(eng.fresh("multi_run_results", "V")), St(st.env, st.heap, st.pc, g))
+    return hook
+
+
+def _single_get_iter(eng, args, kw, st, fr, k, node):
+    env = st.env
+    ok = (len(args) >= 2 and _same(eng, args[1], env.get("#entry_targets")) and "save" in kw and _same(eng, kw["save"], env.get("#entry_save"))
+          and "max_workers" in kw and _same(eng, kw["max_workers"], env.get("#entry_max_workers")))
+    eng.oblige("multi-run", "a single run is processed through get_iter with the request's targets, save list and worker count", st,
+               z3.BoolVal(bool(ok)), node)
+    g = dict(st.ghost)
+    g["single"] = z3.BoolVal(True)
+    fr.on_raise(Exc("Any", Opq(eng.fresh("run_failed", "V"))), st)
+    return k(Opq(eng.fresh("chunk_source", "V")), St(st.env, st.heap, st.pc, g))
+
+
+def _ga_setup(eng, st):
+    env = dict(st.env)
+    for key in ("targets", "save", "max_workers", "chunk_number"):
+        if key in st.env:
+            env["#entry_" + key] = st.env[key]
+    env["#get_array"] = Opq(z3.Function("attr_get_array", V, V)(eng.to_v(st.env["self"])))
+    return St(env, st.heap, st.pc, st.ghost)
+
+
+def _self_get_array(eng, st, fr, k, node):
+    return k(st.env["#get_array"], st)
+
+
+get_array_c = REG.add(Contract(
+    F, "Context.get_array",
+    params=dict(self="V", run_id="V", targets="V", save="V", max_workers="V", kwargs={}),
+    setup=_ga_setup,
+    ensures=lambda S, a, r: [("several runs go through multi_run, one run through get_iter", S.Or(a.ghost.multi, a.ghost.single))],
+    raises={"Any": lambda S, a: S.true, "RuntimeError": lambda S, a: S.true},
+    ghost={"multi": z3.BoolVal(False), "single": z3.BoolVal(False)},
+    calls={"strax.to_str_tuple": Abstract(pure=True), "strax.multi_run": _multi_run_call("get_array"), "self.get_iter": _single_get_iter,
+           "np.concatenate": Abstract(may_raise=["Any"])},
+    attrs={"self.get_array": _self_get_array},
+))
+
+make_c = REG.add(Contract(
+    F, "Context.make",
+    params=dict(self="V", run_id="V", targets="V", save="V", max_workers="V", _skip_if_built="bool", chunk_number="V", combining="V", kwargs={}),
+    setup=_ga_setup,
+    ensures=lambda S, a, r: [("make returns nothing for a single run", S.Or(a.ghost.multi, S.is_none(r)))],
+    raises={"Any": lambda S, a: S.true, "ValueError": lambda S, a: S.true},
+    ghost={"multi": z3.BoolVal(False), "single": z3.BoolVal(False)},
+    calls={"strax.to_str_tuple": Abstract(pure=True), "strax.multi_run": _multi_run_call("make"), "self.get_iter": _single_get_iter,
+           "self.is_stored": Abstract(sort="bool", pure=True), "kwargs.setdefault": Abstract(sort=None)},
+    attrs={"self.get_array": _self_get_array},
+    loops={1: Loop(lambda S, a: [])},
+))
